@@ -31,7 +31,7 @@ def c02_e2e():
 
 
 # ------------------------------------------------------------------------------------------------ O1 cleanup decisions
-def o1_checkin(chk, prog, nreplies, with_cache):
+def o1_checkin(chk, prog, nreplies, with_cache, prop='C02', only=None):
     name = 'O1-checkin-%dreplies%s' % (nreplies, '-cache' if with_cache else '')
     ob = chk.begin(name, 'Server::checkin_cleanup from arbitrary flags (in_transaction, copy, needs_cleanup_set/prepare, cleanup_connections'
                    '%s), server answers the first %d of the expected CommandComplete/ReadyForQuery messages (tags and statuses symbolic) '
@@ -114,6 +114,9 @@ def o1_checkin(chk, prog, nreplies, with_cache):
                 'needs_cleanup_set': ref.cl_set, 'needs_cleanup_prepare': ref.cl_prep}
 
         def rep(key, what):
+            if only is not None and key.split('/', 2)[2] not in only:
+                return
+            key = prop + key[3:]
             m = ip_.model_for()
             pj = pre_json(m, pre, (), {'cleanup_connections': cleanc})
             if with_cache:
@@ -139,7 +142,8 @@ def o1_checkin(chk, prog, nreplies, with_cache):
         if with_cache:
             c = sfield(prog, srv, 'prepared_statement_cache').variants['Some'][0]
             if (len(c.entries) == 0) != cache_cleared:
-                rep('C02/O1/statement-cache', 'statement cache %s after DEALLOCATE ALL decision' % ('not cleared' if cache_cleared else 'cleared'))
+                rep('C02/O1/statement-cache', 'statement cache %s although DEALLOCATE ALL was %s: the cache and the server\'s prepared statements are out of step (a cached name the server dropped '
+                    'is bound without a Parse; a name the server still holds is prepared again and refused)' % (('not cleared', 'sent') if cache_cleared else ('cleared', 'NOT sent')))
         if len(ob.samples) < 3:
             ob.samples.append({'pre': {k: flag_val(ip_, v) for k, v in pre.items()}, 'sql_sent': bytes(b.v for b in written).decode('latin1'), 'result': res})
     ip.explore(harness, max_paths=60000)
@@ -262,6 +266,7 @@ def main(chk):
         'CommandComplete tag; and the hand-over gate ServerPool::has_broken from an arbitrary Server state (one inductive step: '
         'whatever exit path of Client::handle drops the bb8 guard, this predicate alone decides reuse). Violations are replayed '
         'against the compiled Server over loopback and, for the gate, by an end-to-end run of the real Client::handle + bb8 pool.')
+    chk.explanation += (' (O4-connect) bb8\'s connect hook from MIR: the cleanup switch Server::startup receives is the one the pool was configured with.')
     chk.assumptions += [
         'which exits of Client::handle reach the gate in which state is not enumerated (handle is outside reach); the gate is checked for EVERY state instead',
         'the scripted backend stands for PostgreSQL; its real GUC / prepared-statement tables are not modelled',
@@ -278,6 +283,13 @@ def main(chk):
         tasks.append((o2_marking, (prog, tl)))
     chk.parallel(_dispatch, tasks)
 
+    # the cleanup switch a connection lives by is the one the pool was configured with: bb8's connect hook hands each of the manager's settings to
+    # Server::startup under its own name (ServerPool::connect from MIR; the C18 obligation instantiated for this property)
+    import checks.c18 as c18mod
+    try:
+        c18mod.o4_connect(chk, prog, props=('C02',))
+    except Inconclusive as e:
+        chk.note_inconclusive('O4-connect: %s' % e)
     hobl.handle_obligations(chk, prog, {'C02'}, ['simple', 'session', 'extended', 'named', 'malformed', 'cuts', 'status', 'plugins', 'copy', 'two-clients', 'timeouts', 'drops', 'checkout-failures'])
 
 if __name__ == '__main__':
